@@ -4,10 +4,10 @@ package main
 
 import (
 	"context"
-	"encoding/json"
 	"fmt"
 	"os"
 
+	"github.com/sourcenetwork/defradb/client"
 	vnode "github.com/sourcenetwork/defradb/internal/verifharness/node"
 )
 
@@ -18,32 +18,43 @@ func main() {
 		panic(err)
 	}
 	defer n.Close()
-	_, err = n.DB.AddSchema(ctx, `type Author { name: String
- x: Int
- books: [Book] }
-type Book { name: String
- x: Int
- s: Int
- author: Author }`)
+	_, err = n.DB.AddSchema(ctx, `type Item { name: String
+ n: Int @default(int: 7) }`)
 	if err != nil {
 		panic(err)
 	}
-	run := func(q string) {
-		res := n.DB.ExecRequest(ctx, q)
-		b, _ := json.Marshal(res.GQL.Data)
-		fmt.Println(q, "=>", string(b), res.GQL.Errors)
+	col, _ := n.DB.GetCollectionByName(ctx, "Item")
+	d1, _ := client.NewDocFromJSON([]byte(`{"name": "a", "n": 1}`), col.Definition())
+	d2, _ := client.NewDocFromJSON([]byte(`{"name": "b", "n": null}`), col.Definition())
+	fmt.Println(col.Create(ctx, d1), col.Create(ctx, d2))
+	ok, err := col.Delete(ctx, d1.ID())
+	fmt.Println("delete", ok, err)
+	func() {
+		defer func() {
+			if r := recover(); r != nil {
+				fmt.Println("PANIC in export:", r)
+			}
+		}()
+		err = n.DB.BasicExport(ctx, &client.BackupConfig{Filepath: "/tmp/probe_export.json"})
+		fmt.Println("export", err)
+	}()
+	b, _ := os.ReadFile("/tmp/probe_export.json")
+	fmt.Println(string(b))
+	g, err := col.Get(ctx, d2.ID(), false)
+	if err == nil {
+		v, e := g.GetValue("n")
+		if e != nil {
+			fmt.Println("Get n err", e)
+		} else {
+			fmt.Println("Get n =", v.Value())
+		}
 	}
-	run(`mutation { create_Author(input: {name: "A", x: 1}) { _docID } }`)
-	res := n.DB.ExecRequest(ctx, `query { Author { _docID } }`)
-	b, _ := json.Marshal(res.GQL.Data)
-	var m map[string][]map[string]any
-	_ = json.Unmarshal(b, &m)
-	aid := m["Author"][0]["_docID"]
-	for i, d := range []string{`name: "a", x: 1, s: 1`, `name: "a", x: 2, s: 2`, `name: "b", x: 1, s: 3`, `name: "c", x: 3, s: 4`} {
-		_ = i
-		run(fmt.Sprintf(`mutation { create_Book(input: {%s, author_id: "%s"}) { s } }`, d, aid))
-	}
-	for _, q := range os.Args[1:] {
-		run(q)
-	}
+	res := n.DB.ExecRequest(ctx, `query { Item { name n } }`)
+	fmt.Println(res.GQL.Data, res.GQL.Errors)
+	_, err = col.CreateIndex(ctx, client.IndexCreateRequest{Fields: []client.IndexedFieldDescription{{Name: "n"}}})
+	fmt.Println("index", err)
+	res = n.DB.ExecRequest(ctx, `query { Item(filter: {n: {_eq: null}}) { name n } }`)
+	fmt.Println("eq null:", res.GQL.Data, res.GQL.Errors)
+	res = n.DB.ExecRequest(ctx, `query { Item(filter: {n: {_eq: 7}}) { name n } }`)
+	fmt.Println("eq 7:", res.GQL.Data, res.GQL.Errors)
 }
